@@ -207,7 +207,8 @@ claim("C04",
       "meridian arcs, 1 mm; longitude; reverse azimuth 1e-8 deg) and along the equator (a x dlambda) on shipped and random "
       "ellipsoids; RELATIONAL laws in every case of latitude band x 16 azimuth classes x distance decade 1 m..2e7 m x ellipsoid: "
       "flow Direct(s1+s2) = Direct(s1);Direct(s2), reversal, reflection in the equator, mirror in the meridian, longitude shift "
-      "(incl. +-360), zero distance, angle-class arguments bit-identical.",
+      "(incl. +-360), zero distance, angle-class arguments bit-identical, and Clairaut's constant sin(azimuth) x cos(reduced "
+      "latitude) equal at both ends of every line (4e-10), which pins the reverse azimuth of OBLIQUE lines.",
       "NOT decided: the 1 mm accuracy of an OBLIQUE line against the exact geodesic (needs the geodesic integrals): there the laws "
       "are necessary conditions; an error that scales all arcs of one geodesic consistently is caught on meridians/equator only. " + GEO_NOTE,
       "TLA+ specification with exact meridian/equator oracles computed by TLC, TLC-enumerated case skeleton exercised on the real code, TLC trace validation",
@@ -220,8 +221,9 @@ claim("C05",
       "1 mm, azimuths exchanged within what moves the far end by 1 mm), common longitude offset incl. +-360, coincident points -> 0; "
       "CLOSURE: following the direct routine with the returned distance and azimuth arrives within 2 mm (+ the direct routine's own "
       "1 mm and output rounding) and the reverse azimuth agrees, charged to C05 only when the direct routine is self-consistent on "
-      "that very line.",
-      "NOT decided: accuracy of oblique lines beyond closure with the direct routine; the iteration cap is not observable. " + GEO_NOTE,
+      "that very line; Clairaut's constant agrees at the two ends (the two azimuths belong to one geodesic); lines of 1 mm..100 m "
+      "in every direction.",
+      "Known finding: reverse azimuth of lines shorter than 10 m (float cancellation). NOT decided: accuracy of oblique lines beyond closure with the direct routine; the iteration cap is not observable. " + GEO_NOTE,
       "TLA+ specification with exact meridian/equator oracles, TLC-enumerated case skeleton exercised on the real code, TLC trace validation with guarded instrument",
       "DESIGN.md section 4 C05")
 
